@@ -293,40 +293,37 @@ theorem remove_from (s : St) (ps : List Path) (av f : Bool) : CacheFrom s (s.rem
   intro a o h
   exact Or.inl (foldl_removeObj_sub _ _ a o h)
 
+theorem rematerialise_cache (s : St) (ts : List Ent) : (s.rematerialise ts).1.cache = s.cache := by
+  unfold St.rematerialise
+  apply forEach_rel (fun s s' => s'.cache = s.cache) (fun _ => rfl) (fun _ _ _ h1 h2 => h2.trans h1)
+  intro s1 e
+  split
+  · split
+    · exact recheckFromCache_cache _ _ _ _
+    · rfl
+  · rfl
+
+theorem foldl_removeObj_recs (l : List Addr) (s : St) : (l.foldl St.removeObj s).recs = s.recs := by
+  induction l generalizing s with
+  | nil => rfl
+  | cons a l ih => simp only [List.foldl_cons]; rw [ih, removeObj_recs]
+
 theorem untrack_from (s : St) (ps : List Path) : CacheFrom s (s.untrack ps).1 := by
   unfold St.untrack
   simp only
   split
   · exact CacheFrom.refl s
-  · have h1 : ∀ s0 : St, (forEach (fun (s : St) (e : Ent) =>
-        match s.recs e with
-        | some r =>
-          match s.ws r.path, r.cur with
-          | some (.sym _), some d => s.recheckFromCache r.path (addrOf r.path d) .copy
-          | _, _ => (s, .ok)
-        | none => (s, .ok)) s0 (s.targetEnts ps)).1.cache = s0.cache := by
-      intro s0
-      apply forEach_rel (fun s s' => s'.cache = s.cache) (fun _ => rfl) (fun _ _ _ h1 h2 => h2.trans h1)
-      intro s1 e
-      split
-      · split
-        · exact recheckFromCache_cache _ _ _ _
-        · rfl
-      · rfl
-    have h1s := h1 s
-    generalize (forEach _ s (s.targetEnts ps)) = res at h1s
+  · have h1 := rematerialise_cache s (s.targetEnts ps)
+    generalize s.rematerialise (s.targetEnts ps) = res at h1
     obtain ⟨s1, o⟩ := res
-    simp only at h1s ⊢
-    cases o with
-    | panic => exact cacheFrom_of_eq h1s
-    | ok =>
-      intro a ob h
+    cases o <;> simp only at h1 ⊢
+    · intro a ob h
       have := foldl_removeObj_sub _ _ a ob h
-      exact Or.inl (h1s ▸ this)
-    | refused =>
-      intro a ob h
+      exact Or.inl (h1 ▸ this)
+    · intro a ob h
       have := foldl_removeObj_sub _ _ a ob h
-      exact Or.inl (h1s ▸ this)
+      exact Or.inl (h1 ▸ this)
+    · exact cacheFrom_of_eq h1
 
 /-! ## copy / move never touch the cache -/
 
